@@ -1131,6 +1131,15 @@ inductive Stmt where
   | delete (t : Nat) (where_ : Option Expr)
   deriving Repr, Inhabited
 
+/-- `INSERT INTO t (c…) VALUES (e…)`: the full row the listed values stand for.  Column j of the table gets the expression
+    written for it, NULL if the list does not name it.  `none` (an ill-formed statement) if the list names a column twice
+    or a column the table does not have, or if the number of values differs from the number of listed columns. -/
+def expandCols (ncols : Nat) (cols : List Nat) (row : List Expr) : Option (List Expr) :=
+  if cols.length != row.length || !cols.Nodup || cols.any (fun c => c ≥ ncols) then none
+  else some ((List.range ncols).map (fun j => match (cols.zip row).find? (fun p => p.1 == j) with
+    | some p => p.2
+    | none => .lit .null))
+
 inductive Outcome where
   | rows (rs : List Row)
   | affected (n : Nat)
